@@ -68,6 +68,20 @@ func (e *c07env) rosterID(r string) onet.RosterID {
 }
 
 func (e *c07env) roster(r, list string) *onet.Roster {
+	if list == "2" {
+		// the full list, but the first two members (the servers every harness tree uses) come without
+		// their public key: the field is optional on the wire
+		full := e.roster(r, "1")
+		ro := &onet.Roster{ID: full.ID, Aggregate: full.Aggregate}
+		for i, si := range full.List {
+			cp := *si
+			if i < 2 {
+				cp.Public = nil
+			}
+			ro.List = append(ro.List, &cp)
+		}
+		return ro
+	}
 	if list == "1" {
 		src := e.rosters["roK"]
 		if r != "roZ" {
@@ -547,7 +561,7 @@ func c07gen(c *h.Ctx, yield func(*h.Case)) {
 			}
 		}
 	}
-	ros := []string{"-", "roR 1", "roR 0", "roK 1", "roX 1", "roZ 1", "roZ 0"}
+	ros := []string{"-", "roR 1", "roR 0", "roR 2", "roK 1", "roK 2", "roX 1", "roZ 1", "roZ 0"}
 	for _, tm := range append([]string{"-"}, tms...) {
 		for _, ro := range ros {
 			// the interesting part of the product: descriptions of R with every roster, everything else with two rosters
@@ -561,7 +575,7 @@ func c07gen(c *h.Ctx, yield func(*h.Case)) {
 	}
 	for _, ro := range []string{"roK", "roR", "roX", "roZ"} {
 		envs = append(envs, "c07 reqroster "+ro)
-		envs = append(envs, "c07 sendroster "+ro+" 1", "c07 sendroster "+ro+" 0")
+		envs = append(envs, "c07 sendroster "+ro+" 1", "c07 sendroster "+ro+" 0", "c07 sendroster "+ro+" 2")
 	}
 	envs = append(envs, "c07 config 1", "c07 config 0")
 	mode := func(i int) string {
@@ -578,6 +592,7 @@ func c07gen(c *h.Ctx, yield func(*h.Case)) {
 		{"c07 proto none member 1"}, {"c07 proto freshK none 1"}, {"c07 resptree R roR empty roR 1"},
 		{"c07 reqroster roK"}, {"c07 sendroster roR 1", "c07 sendroster roR 1", "c07 treemarshal R roR good"},
 		{"c07 resptree K roK unksrv roK 1"}, {"c07 treemarshal R roR good", "c07 sendroster roR 1"},
+		{"c07 resptree R roR good roR 2"}, {"c07 treemarshal R roX good", "c07 sendroster roX 2"},
 	} {
 		for _, m := range []string{"direct", "wire-local"} {
 			yield(&h.Case{Class: "corpus", Ops: append([]string{"c07 state idle " + m}, w...)})
